@@ -415,7 +415,19 @@ def grace_part(ck, prog, pr, seed):
                        % ({'null': 'answers with a Null body and status BadPktVersion (no tracking data)', 'garbage': 'answers with undecodable bytes', 'tracking': 'answers with tracking data', 'none': 'is not there'}[modes],
                           'Some(tracking)' if got[0] else 'None', got[1], 'Some' if want[0] else 'None', want[1]))
     ck.cov['native_get_tracking'] = runs
-    if bad:
+    # natively, always: the PHC is chronyd's reference and its error-bound attribute OPENS but cannot be READ (a directory stands in for a
+    # sysfs attribute whose driver fails the read): the report is not used as a measurement
+    for gr, want_msg in (('0', 'PhcErrorBoundRetrievalFailed'), ('1', 'PhcErrorBoundRetrievalFailedGracePeriod')):
+        out = rpg.ask('poller 1 %s 1 7 7 dir' % gr)
+        ck.cov['evaluations'] += 1
+        f = dict(x.split('=', 1) for x in out.split()[1:] if '=' in x) if out.startswith('ok') else {}
+        runs['phc attribute unreadable, grace=' + gr] = out[:160]
+        msgs_ = (f.get('msgs') or '').split('|')
+        if out.startswith('ok') and f.get('n') == '1' and not msgs_[0] == want_msg and not bad:
+            bad.append('the PHC is chronyd\'s reference (ids match) and its error-bound attribute opens but every read fails: the real poller loop sends %s, documented: %s (the report must not be used as a measurement)' % (msgs_[0], want_msg))
+    if bad and 'error-bound attribute' in bad[0]:
+        ck.violation('phc-unreadable-used-as-measurement', bad[0], {'cmd': 'poller 1 0 1 7 7 dir', 'native': runs, 'all': bad})
+    elif bad:
         ck.violation('grace-after-non-tracking-answer', bad[0] + ': an answer without tracking data counts as a good answer, the grace period (re)starts', {'cmd': 'gettracking', 'native': runs, 'all': bad})
         pr2.handled = getattr(pr2, 'handled', set()) | {n for n, m_ in pr2.failed if n.startswith('get_tracking:')}
     rpg.close()
@@ -532,6 +544,19 @@ def check_c12(tier, seed):
     prog, mir_wall = load_dlib_program()
     pm = poller_order_half(ck, prog, seed)
     client_order_half(ck, seed)
+    # the as-of instant stays attached to ITS report all the way into the published record: bound and as_of of every record are those of
+    # the same (latest synchronised) report - an as_of refreshed from a later, discarded answer would un-age the frozen bound
+    if not ck.violations:
+        try:
+            from . import daemon_updater
+            sub = daemon_updater.run_check('C08', tier, seed, owner='C12', only_clauses=['bound and as_of are those of the latest synchronised report'])
+            for key, desc, path in sub.violations:
+                ck.violations.append(('record:' + key, 'as-of and bound of a published record belong to different reports: ' + desc, path))
+            ck.inconclusive += ['record pairing: ' + i for i in sub.inconclusive]
+            for k_ in ('obligations', 'discharged', 'queries', 'evaluations', 'distinct_nontrivial'):
+                ck.cov[k_] = ck.cov.get(k_, 0) + sub.cov.get(k_, 0)
+        except EngineError as e:
+            ck.inconclusive.append('record pairing (updater): %s' % e)
     fin(ck, pm, mir_wall)
     ck.cov['bounds'] = {'poller': 'all paths of one loop iteration', 'client': 'all return paths of ClockErrorBound::now() over the C05 domain', 'delays': 'the order is structural: it holds for every delay between the steps'}
     return ck.finish()
